@@ -2,6 +2,7 @@ package props
 
 import (
 	"fmt"
+	"strings"
 	"go/token"
 	"go/types"
 
@@ -145,7 +146,18 @@ func ruleR05b(h *H) {
 		if ok, _ := h.P.StaticReaches(op, h.P.MatchPred(metaStore)); !ok {
 			continue
 		}
-		if !h.P.FuncMatches(ir.Outermost(s.Fn), updShardMeta) {
+		// on the election path: in the UpdateShardMetadata implementation itself or in a
+		// helper it (statically) calls
+		onPath := h.P.FuncMatches(ir.Outermost(s.Fn), updShardMeta)
+		if !onPath {
+			target := ir.Outermost(s.Fn)
+			for _, impl := range h.P.ImplMethods("coordinator/resources", "StatusResource", "UpdateShardMetadata") {
+				if r, _ := h.P.StaticReaches(impl, func(c *ssa.CallCommon) bool { return c.StaticCallee() == target }); r {
+					onPath = true
+				}
+			}
+		}
+		if !onPath {
 			h.Note("metadata Store retry with discarded result (not on the election path): %s", ir.FuncName(s.Fn))
 			continue
 		}
@@ -532,6 +544,40 @@ func ruleR05e(h *H) {
 		}
 		h.Verdict(good, rule, fmt.Sprintf("followers map insertion #%d", nUpd), h.pos(in), "guarded by key != leader", "a responder is added to the followers without excluding the leader")
 	})
+	if nUpd == 0 {
+		// the other idiom: followers = maps.Clone(responses); delete(followers, leader)
+		ir.Instrs(fn, func(in ssa.Instruction) {
+			ret, ok := in.(*ssa.Return)
+			if !ok || len(ret.Results) != 2 {
+				return
+			}
+			vals := ir.ReturnValues(ret)
+			fol := ir.Canon(vals[1])
+			good := false
+			why := "the returned followers are " + ir.Describe(vals[1]) + ": cannot see that the leader is excluded"
+			if c, isCall := fol.(*ssa.Call); isCall {
+				f := c.Call.StaticCallee()
+				o := f
+				if f != nil && f.Origin() != nil {
+					o = f.Origin()
+				}
+				if o != nil && strings.HasPrefix(o.Name(), "Clone") && o.Pkg != nil && strings.HasSuffix(o.Pkg.Pkg.Path(), "maps") {
+					why = "the responses are cloned but the leader is not deleted from the clone on every path"
+					ir.Instrs(fn, func(x ssa.Instruction) {
+						d := ir.CallOf(x)
+						if d == nil {
+							return
+						}
+						if b, isB := d.Value.(*ssa.Builtin); isB && b.Name() == "delete" && ir.Canon(d.Args[0]) == fol && ir.Canon(d.Args[1]) == ir.Canon(vals[0]) && ir.Dominates(x, in) {
+							good = true
+						}
+					})
+				}
+			}
+			nUpd++
+			h.Verdict(good, rule, "followers exclude the leader", h.pos(in), "followers = clone of the responses with the leader deleted", why)
+		})
+	}
 }
 
 func inList(s string, l []string) bool {
